@@ -1,15 +1,17 @@
 CONF = {
     "level": "exploration",
-    "technique": "property-based testing (rapid): generated Fastly resource sets fed through a fake snippet.Fetcher and as Terraform plan JSON into snippet.Fetch/EmbedSnippets; generated VCL parsed with falco's parser and compared with the resource data (validity predicate + inverse oracle)",
+    "technique": "property-based testing (rapid): generated Fastly resource sets fed through a fake snippet.Fetcher, as Terraform plan JSON and (a third of the cases) as Fastly API JSON served by a fake http.RoundTripper to remote.NewFastlyApiFetcher, into snippet.Fetch/EmbedSnippets; generated VCL parsed with falco's parser and compared with the resource data (validity predicate + inverse oracle)",
     "level_text": "Random resource sets (dictionaries, ACLs, backends, directors, conditions, header rules, response objects, VCL snippets) with hostile text and names; every generated item must parse and the parsed declarations must carry exactly the input's keys, decoded values, addresses, masks, negations, sanitised names and members. Exploration of the generated shapes only (label histogram in evidence).",
     "campaigns": [rapid("rapid", 20000, 300000, bq=40), rapid("hostile", 16000, 200000, bq=40, env={"VERIF_C20_HOSTILE": "1"})],
     "cli": True,
+    "floors": {"path:api": 0.25, "api:subnet-0": 0.08, "api:subnet-null": 0.08, "api:negated": 0.08, "api:dynamic-snippet": 0.04, "api:write-only-dictionary": 0.03, "api:cache-round-trip": 0.04},
     "assumptions": [
         "Fastly sanitises backend/director names by replacing every character outside [A-Za-z0-9_] with _ (names are generated in ASCII only); backends are declared as F_<name>, shield directors as ssl_shield_<pop>",
         "dictionary keys are unique and non-empty; table order and director member order are not promised (compared as multisets), ACL entry order is",
         "header rule sources/conditions are VCL expressions and regex/substitution/content-type are drawn from fixed realistic lists (they are user-written VCL, not data); for header rules, response objects and VCL snippets the oracle is 'parses and has the expected statement skeleton', plus byte equality of the synthetic body",
         "director type is only checked for type 1 = random (falco's numbering of the other types differs from the Fastly API's and is not part of the property statement)",
         "Terraform for_each resources are indexed by the ACL/dictionary name (falco's documented convention); numeric (count) indexes are not generated",
+        "Fastly API path: the fake api.fastly.com answers every listing completely in one response (no pagination, no rate limiting), spells booleans and priorities/status as strings (\"0\"/\"1\", \"10\") and the ACL subnet as a JSON number or null/absent, as in snippet/remote/client_test.go; a write-only dictionary answers 403 on its item listing and is expected as an empty table; logging endpoints are served but their names are not part of the oracle; requests for any other path, version, method or without the Fastly-Key are failures",
         "`falco terraform` (thorough tier, 1 case in 2000 (VERIF_C20_CLI_EVERY)): only 'no crash, parse error reported iff the library path found one' is observed",
     ],
 }
